@@ -8,10 +8,12 @@ import (
 	"fmt"
 	"net/netip"
 	"os"
+	"runtime"
 	"sort"
 	"strconv"
 	"strings"
 	"testing"
+	"testing/cryptotest"
 	"time"
 
 	"github.com/slackhq/nebula/cert"
@@ -116,7 +118,7 @@ func c39New(t testing.TB, c *mc.Check, st *c39Stats, cfg c39Cfg) *c39World {
 		ov["static_host_map"] = shm
 		specs = append(specs, vnodeSpec{Name: n, Networks: ips[n] + "/24", Udp: udp(n), Version: cfg.ver, Overrides: ov})
 	}
-	net := vNewNet(t, c.Seed(), specs...)
+	net := c39Net(t, c.Seed(), specs)
 	w := &c39World{t: t, c: c, st: st, cfg: cfg, net: net, nodes: map[string]*vnode{}, names: c39Names, addr: map[string]netip.Addr{}, who: map[netip.Addr]string{},
 		fresh: 0x51000000, announced: map[string]map[uint32]string{}}
 	for _, n := range c39Names {
@@ -135,6 +137,48 @@ func c39New(t testing.TB, c *mc.Check, st *c39Stats, cfg c39Cfg) *c39World {
 	}
 	w.evEmitted, w.evDelivered = nil, nil
 	return w
+}
+
+// c39TB lets the world builder survive a flake of the shared node assembly on an oversubscribed machine ("lighthouse
+// query worker did not exit": a goroutine-count wait loop that can time out under heavy load): the failure becomes a
+// panic that c39Net recovers from, and the build is retried. Any other failure stays fatal.
+type c39TB struct{ testing.TB }
+type c39Retry struct{ msg string }
+
+func (b c39TB) Fatalf(format string, args ...any) { panic(c39Retry{fmt.Sprintf(format, args...)}) }
+func (b c39TB) Fatal(args ...any)                 { panic(c39Retry{fmt.Sprint(args...)}) }
+
+// c39Net = vNewNet with randomness pinned exactly as vNewNet does it, retried on the assembly flake.
+func c39Net(t testing.TB, seed int64, specs []vnodeSpec) (net *vnet) {
+	for attempt := 0; ; attempt++ {
+		func() {
+			defer func() {
+				if r := recover(); r != nil {
+					rt, ok := r.(c39Retry)
+					if !ok {
+						panic(r)
+					}
+					if attempt >= 3 || !strings.Contains(rt.msg, "did not exit") {
+						t.Fatalf("%s", rt.msg)
+					}
+					runtime.Gosched()
+					net = nil
+				}
+			}()
+			vGetPKI()
+			for _, sp := range specs {
+				vGetPKI().leafFor(sp.Name, sp.Networks, sp.Unsafe, sp.Groups, sp.Version) // minted once, before randomness is pinned
+			}
+			if tt, ok := t.(*testing.T); ok {
+				cryptotest.SetGlobalRandom(tt, uint64(seed)+1)
+			}
+			net = vNewNet(c39TB{t}, seed, specs...)
+			net.tb = t
+		}()
+		if net != nil {
+			return net
+		}
+	}
 }
 
 // teach = what a lighthouse would answer: I, T and O learn that the others are reachable through relay R.
